@@ -1092,6 +1092,10 @@ client_retransmit_through_tcp(struct evdns_request *handle)
 	handle->current_req = newreq;
 	newreq->handle = handle;
 	request_submit(newreq);
+	/* The clone was made while the old request still counted as in
+	 * flight, so at the limit it went to the waiting queue after
+	 * request_finished() had already looked there. */
+	evdns_requests_pump_waiting_queue(base);
 	return 0;
 }
 
@@ -4162,6 +4166,8 @@ submit_next:
 	handle->current_req = newreq;
 	newreq->handle = handle;
 	request_submit(newreq);
+	/* see client_retransmit_through_tcp() */
+	evdns_requests_pump_waiting_queue(base);
 	return 0;
 }
 
